@@ -254,7 +254,10 @@ def join(a, b):
     if (isinstance(a, Q) and isinstance(b, Const)) or (isinstance(b, Q) and isinstance(a, Const)):
         return a if isinstance(a, Q) else b          # nan / inf sentinels joined with coordinates
     if isinstance(a, Off) and isinstance(b, Off) and a.level == b.level and a.top == b.top and a.tbase == b.tbase:
-        return Off(a.level, a.win or b.win, a.top, a.role if a.role == b.role else None, a.tbase)
+        r_ = Off(a.level, a.win or b.win, a.top, a.role if a.role == b.role else None, a.tbase)
+        if getattr(a, 'synthetic', False) or getattr(b, 'synthetic', False):
+            r_.synthetic = True       # may be the scalar wrappers' one-element offsets: positions count in the array they were measured on
+        return r_
     if isinstance(a, Vals) and isinstance(b, Vals) and a.L == b.L:
         return Vals(a.L, a.base if a.base == b.base else 'mixed', a.placeholder or b.placeholder, a.fresh and b.fresh)
     if isinstance(a, Arr) and isinstance(b, Arr):
@@ -719,7 +722,7 @@ class Interp:
                 if isinstance(op, ast.Add) or (isinstance(op, ast.Sub) and not swapped):
                     d = y.v if isinstance(op, ast.Add) else -y.v
                     r = Idx(x.level, x.base, None if x.parity is None else (x.parity + d) % 2, x.origin, x.delta + d)
-                    for at in ('hi_slack', 'step', 'lo', 'hi', 'count_of', 'top', 'single_part'):
+                    for at in ('hi_slack', 'step', 'lo', 'hi', 'count_of', 'top', 'single_part', 'from_synthetic'):
                         if hasattr(x, at):
                             setattr(r, at, getattr(x, at))
                     return r
@@ -987,9 +990,14 @@ class Interp:
                     self.err('level', node, f'offsets of level {base.level} indexed by an index of level {i.level}')
                     return TOP
                 r = Idx(base.level + 1, base.tbase, top_par, origin=('off', base.level, i.origin, i.delta, base.role))
+                if getattr(base, 'synthetic', False):
+                    r.from_synthetic = True
                 return r
             if isinstance(i, Const) and isinstance(i.v, int):
-                return Idx(base.level + 1, base.tbase, top_par, origin=('off', base.level, 'c', i.v, base.role))
+                r = Idx(base.level + 1, base.tbase, top_par, origin=('off', base.level, 'c', i.v, base.role))
+                if getattr(base, 'synthetic', False):
+                    r.from_synthetic = True
+                return r
             if isinstance(i, Sel):
                 if i.level != base.level and i.level is not None:
                     self.err('level', node, f'offsets of level {base.level} gathered by a level-{i.level} selection')
@@ -1110,6 +1118,12 @@ class Interp:
                 if isinstance(b, Idx) and b.level != base.level and not isinstance(b.level, (tuple, str)):
                     self.err('level', node, f'offsets of level {base.level} sliced by a bound of level {b.level}')
                     return TOP
+            for b in (lo, hi):
+                if base.win and isinstance(b, Idx) and isinstance(b.origin, tuple) and b.origin and b.origin[0] in ('off', 'offc') and getattr(b, 'base', 'abs') == 'abs' \
+                        and not getattr(base, 'gathered', False) and not getattr(b, 'from_synthetic', False):
+                    self.err('base', node, f'offsets array that was cut to the window (positions count from the first selected part) is sliced by an absolute part index taken from the '
+                                           f'outer offsets: for a sliced array the parts of later elements are read')
+                    return TOP
             role = base.role
             if lo is None and isinstance(hi, Const) and hi.v == -1 and st is None:
                 role = 'start'
@@ -1117,6 +1131,8 @@ class Interp:
                 role = 'stop'
             win = base.win or any(isinstance(b, Idx) for b in (lo, hi))
             r = Off(base.level, win, base.top, role, base.tbase)
+            if getattr(base, 'synthetic', False):
+                r.synthetic = True
             # fencepost: a sub-array of offsets for the parts [start, stop) must be cut as offs[start : stop + 1]
             if isinstance(lo, Idx) and isinstance(hi, Idx):
                 r.cut = (lo, hi)
